@@ -34,10 +34,34 @@ Theorem C08_path_canonical : forall loc, Forall (fun k => match k with KIdx i =>
 Proof. exact path_is_norm_path. Qed.
 Print Assumptions C08_path_canonical.
 
-(* Full statement of the re-query half (NOT proved: needs the lexer/parser theorem on canonical texts; decided on
-   every generated node against the real code):
-     C08_requery : forall cfg v loc x, lookup v loc = Some x ->
-                   exists q, m_compile cfg (norm_path loc) = Ok q /\ m_find cfg q v = Ok [(loc, x)] *)
+(* The re-query half, end to end through the lexer, parser and evaluator models: for the location of ANY node of any
+   value (member names over all Unicode scalar values, indices the environment's integer range admits), the text
+   path() prints compiles, to the query made of one name/index selector per key, and that query applied to the value
+   selects exactly that node.  (Proofs/Requery.v: canonical spelling decodes to the name; the lexer's regular
+   expressions and string states on the text; the parser on the resulting tokens; the evaluator on the result.) *)
+From JP Require Import Model.Api Proofs.StringProofs Proofs.Requery.
+Definition names_scalar (loc : list key) : Prop :=
+  Forall (fun k => match k with KName s => forallb is_scalar s = true | KIdx _ => True end) loc.
+Definition indices_admitted (cfg : envcfg) (loc : list key) : Prop :=
+  Forall (fun k => match k with KIdx i => Model.Parse.in_range cfg i = true | KName _ => True end) loc.
+Theorem C08_requery : forall cfg v loc x, lookup v loc = Some x -> names_scalar loc -> indices_admitted cfg loc ->
+  m_compile cfg (m_path loc) = Ok (q_of loc) /\ m_env_find cfg (m_path loc) v = Ok [(loc, x)].
+Proof.
+  intros cfg v loc x H Hn Hi. pose proof (lookup_nonneg loc v x H) as Hnn.
+  rewrite (path_is_norm_path loc Hnn).
+  assert (Hk : Forall key_ok loc).
+  { unfold names_scalar in Hn. rewrite Forall_forall in *. intros k Hin. specialize (Hn k Hin). specialize (Hnn k Hin). destruct k; assumption. }
+  split; [apply compile_norm_path; assumption | apply requery; assumption].
+Qed.
+Print Assumptions C08_requery.
+
+(* the hypotheses are met, and the result is not trivial *)
+Example C08_requery_example :
+  let v := JObj [([39; 0; 92; 34; 128512]%N, JArr [JNull; JBool true; JNum (NInt 7); JStr [97]%N])] in
+  let cfg := {| min_idx := -9; max_idx := 9; max_depth := 100; reg := builtin_registry; rx := fun _ _ _ => false |} in
+  lookup v [KName [39; 0; 92; 34; 128512]%N; KIdx 3] = Some (JStr [97]%N)
+  /\ m_env_find cfg (m_path [KName [39; 0; 92; 34; 128512]%N; KIdx 3]) v = Ok [([KName [39; 0; 92; 34; 128512]%N; KIdx 3], JStr [97]%N)].
+Proof. split; vm_compute; reflexivity. Qed.
 
 Example C08_example :
   m_path [KName [39; 0; 92; 34; 128512]%N; KIdx 3] = [36; 91; 39; 92; 39; 92; 117; 48; 48; 48; 48; 92; 92; 34; 128512; 39; 93; 91; 51; 93]%N.
